@@ -1,5 +1,6 @@
 CONSTANTS NFrag = 3
   Stride = 211
+  ELen = 5
 INIT Init
 NEXT Next
 INVARIANTS NoPanic CursorsInRange StepsBounded ErrorLast Ends Partition PositionsExact Out
